@@ -300,8 +300,11 @@ def run_task(M, t, cpu_alarm=CPU_ALARM):
     if cpu_alarm:
         def _alarm(sig, frm):
             raise Budget('user CPU > %d s' % cpu_alarm)
-        old = signal.signal(signal.SIGVTALRM, _alarm)
-        signal.setitimer(signal.ITIMER_VIRTUAL, cpu_alarm)
+        try:
+            old = signal.signal(signal.SIGVTALRM, _alarm)
+            signal.setitimer(signal.ITIMER_VIRTUAL, cpu_alarm)
+        except ValueError:            # not the main thread: step budgets only
+            cpu_alarm = 0
     try:
         # hephaestus._run: reset_word_pool, two package names; gen_program: reset_word_pool, translator, generate
         r.reset_word_pool()
@@ -357,6 +360,8 @@ def run_task(M, t, cpu_alarm=CPU_ALARM):
     except Exception as exc:   # noqa: the property forbids every exception
         inner, trail = _frame(M, exc)
         where = '%s:%s' % (inner[0], inner[1]) if inner else 'outside-repo'
+        if isinstance(exc, RecursionError):
+            where = 'stage:' + cur[0]     # the frame where the interpreter's limit is hit is arbitrary
         rec['findings'].append(('exception:%s@%s' % (type(exc).__name__, where),
                                 dict(function=_stage_function(cur[0]), stage=cur[0], exception=type(exc).__name__,
                                      message=str(exc)[:200], innermost_repo_frame=list(inner) if inner else None,
